@@ -225,3 +225,29 @@ func (a *plainAlloc) Malloc(size int) unsafe.Pointer {
 }
 
 func (a *plainAlloc) Free(p unsafe.Pointer) { delete(a.keep, uintptr(p)) }
+
+// DescribeAddr explains an address inside the arena (for fault reports).
+func (g *GuardAlloc) DescribeAddr(a uintptr) (string, bool) {
+	if a < g.base || a >= g.base+uintptr(len(g.arena)) {
+		return "", false
+	}
+	for _, b := range g.order {
+		start := (b.addr - g.base) &^ (pageSize - 1)
+		end := start + uintptr(b.pages+1)*pageSize
+		off := a - g.base
+		if off >= start && off < end {
+			st := "live"
+			if b.freedS != 0 {
+				st = fmt.Sprintf("freed at event %d", b.freedS)
+			}
+			where := "inside"
+			if a < b.addr {
+				where = "before"
+			} else if a >= b.addr+uintptr((b.size+7)&^7) {
+				where = "past the end of"
+			}
+			return fmt.Sprintf("%s %s block of %d bytes allocated at event %d (%s)", where, b.class, b.size, b.seq, st), b.freedS != 0
+		}
+	}
+	return "unallocated arena page", false
+}
